@@ -205,6 +205,19 @@ Section C09.
     forall A n, ~ derivesN G (S n) [Nt A] [Nt A].
   Proof. exact (no_cycle_sound neqb neqb_spec). Qed.
 
+  (** ... and complete: the graph checkers decide the semantic properties exactly *)
+  Theorem C09_no_left_recursion_correct : forall G : gram,
+    no_left_recursion neqb G = true <-> forall A α n, ~ derivesN G (S n) [Nt A] (Nt A :: α).
+  Proof.
+    intros G. split; [exact (no_left_recursion_sound neqb neqb_spec G)|exact (no_left_recursion_complete neqb neqb_spec G)].
+  Qed.
+
+  Theorem C09_no_cycle_correct : forall G : gram,
+    no_cycle neqb G = true <-> forall A n, ~ derivesN G (S n) [Nt A] [Nt A].
+  Proof.
+    intros G. split; [exact (no_cycle_sound neqb neqb_spec G)|exact (no_cycle_complete neqb neqb_spec G)].
+  Qed.
+
   (** hence, semantically: after EliminateLeftRecursion no A =>+ A α, after EliminateCycles no A =>+ A *)
   Theorem C09_left_recursion_semantic : forall (order : gram -> list N) (G G' : gram), valid G ->
     (forall G1, NoDup (order G1) /\ forall A, In A (nonterms G1) <-> In A (order G1)) ->
@@ -356,6 +369,8 @@ Print Assumptions C09_left_recursion_post.
 Print Assumptions C09_left_factor_symbols.
 Print Assumptions C09_no_left_recursion_sound.
 Print Assumptions C09_no_cycle_sound.
+Print Assumptions C09_no_left_recursion_correct.
+Print Assumptions C09_no_cycle_correct.
 Print Assumptions C09_left_recursion_semantic.
 Print Assumptions C09_cycles_semantic.
 Print Assumptions C09_no_empty_correct.
